@@ -63,7 +63,21 @@ pub fn one_chain(ctx: &WorkerCtx, rep: &mut WorkerReport, case_seed: u64, rounds
         let parked = if rng.chance(1, 3) { w.park_only(&mut r) } else { 0 };
         let h = r.height;
         let m = r.max_ever;
-        let n = if parked > 0 && rng.chance(1, 2) { h.max(0) as u64 } else { pick_target(&mut rng, h, m) };
+        // heights at which a waiting transaction expired (parked ten blocks earlier and never drained):
+        // a reorg to exactly such a height must leave it expired
+        let expiry_heights: Vec<u64> = r.chain.iter().zip(r.chain_resp.iter()).enumerate()
+            .filter(|(_, (ops, resps))| ops.iter().zip(resps.iter()).any(|(o, rs)| matches!(o, Op::Transact { .. }) && rs.is_ok() && hist::receipts_in(rs).is_empty()))
+            .map(|(i, _)| i as u64 + 10)
+            .filter(|x| (*x as i64) <= h && (*x as i64) + 10 >= m)
+            .collect();
+        let n = if parked > 0 && rng.chance(1, 2) {
+            h.max(0) as u64
+        } else if !expiry_heights.is_empty() && rng.chance(1, 3) {
+            rep.count("reorgs_to_an_expiry_height", 1);
+            *rng.pick(&expiry_heights)
+        } else {
+            pick_target(&mut rng, h, m)
+        };
         let expect_accept = (n as i64) <= h && (n as i64) + 10 >= m;
         let orphan_start = r.log.len();
         // which ops are orphaned by this reorg: those of blocks > n on the surviving chain
